@@ -4,9 +4,9 @@
    from /repo/std/*.sam on every run (coq/generated/Std*.v); `res` is Ok | Panic | OutOfFuel. *)
 From Coq Require Import List ZArith Lia Bool.
 Import ListNotations.
-From SVG Require Import StdPrelude StdTuples StdOption StdList StdMap StdSet.
+From SVG Require Import StdPrelude StdInterfaces StdBoxed StdTuples StdOption StdList StdMap StdSet.
 From SV Require Import C18.Spec C18.Conv C18.MapBase C18.MapOps1 C18.MapOps2 C18.MapOps3 C18.MapOps4 C18.MapOps5 C18.MapOps6
-  C18.SetBase C18.SetOps1 C18.SetOps2 C18.SetOps3.
+  C18.MapOps7 C18.MapOps8 C18.SetBase C18.SetOps1 C18.SetOps2 C18.SetOps3 C18.SetOps4 C18.ListOps C18.IntKey C18.MapSeq C18.SetSeq C18.SetOps5 C18.SetOps6 C18.OptionOps.
 Open Scope Z_scope.
 
 (* the oracle for `==` on non-primitive values may say `true` only on equal values *)
@@ -239,6 +239,46 @@ Theorem C18_map_union : forall (K V : Type) (cmp : K -> K -> Z), cmp_order cmp -
     /\ height t <= height t1 + height t2.
 Proof. exact (@union_ok). Qed.
 
+(* merge: "Invalid state" is unreachable; f sees both optional values of every key of either map *)
+Theorem C18_map_merge : forall (K V V2 V3 : Type) (cmp : K -> K -> Z), cmp_order cmp ->
+  forall (phys_eq : forall A : Type, A -> A -> bool)
+  (f : K -> Option_t V -> Option_t V2 -> res (Option_t V3)) (g : K -> option V -> option V2 -> option V3),
+  (forall k a b, f k a b = Ok (of_option (g k (to_option a) (to_option b)))) ->
+  forall (fuel : nat) (t1 : Map_t K V) (t2 : Map_t K V2), avl t1 -> bst cmp t1 -> avl t2 -> bst cmp t2 ->
+  2 * (height t1 + height t2) + 10 <= Z.of_nat fuel ->
+  exists t, Map_merge phys_eq cmp fuel t1 t2 f = Ok t /\ avl t /\ bst cmp t
+    /\ pointwise cmp (merge_comb g) (bindings t1) (bindings t2) (bindings t)
+    /\ height t <= height t1 + height t2.
+Proof. exact (@merge_ok). Qed.
+
+(* compare / equal: lexicographic on the bindings in key order (fuel: one step per binding) *)
+Theorem C18_map_compare : forall (K V : Type) (cmp : K -> K -> Z) (phys_eq : forall A : Type, A -> A -> bool)
+  (f : V -> V -> res Z) (g : V -> V -> Z), (forall a b, f a b = Ok (g a b)) ->
+  forall (t1 t2 : Map_t K V) (fuel : nat), avl t1 -> avl t2 ->
+  Z.of_nat (length (bindings t1)) + Z.max (height t1) (height t2) + 4 <= Z.of_nat fuel ->
+  Map_compare phys_eq cmp fuel t1 t2 f = Ok (alex cmp g (bindings t1) (bindings t2)).
+Proof. exact (@compare_ok). Qed.
+
+Theorem C18_map_equal : forall (K V : Type) (cmp : K -> K -> Z) (phys_eq : forall A : Type, A -> A -> bool)
+  (f : V -> V -> res bool) (g : V -> V -> bool), (forall a b, f a b = Ok (g a b)) ->
+  forall (t1 t2 : Map_t K V) (fuel : nat), avl t1 -> avl t2 ->
+  Z.of_nat (length (bindings t1)) + Z.max (height t1) (height t2) + 4 <= Z.of_nat fuel ->
+  Map_equal phys_eq cmp fuel t1 t2 f = Ok (aeqb cmp g (bindings t1) (bindings t2)).
+Proof. exact (@equal_ok). Qed.
+
+(* ---- the property in its literal form for Map: ANY sequence of insert / remove / update / filter / union
+   (MapSeq.mop; `run` applies the generated functions, `spec_step` the sorted-association-list operations),
+   started from any valid map (e.g. Map_Empty), never panics, needs fuel linear in the number of operations,
+   keeps the invariants and ends in exactly the specified bindings.  The observers (get, containsKey, fold,
+   entries, keys, min, max, size, ...) are then given by their own theorems on that valid state. *)
+Theorem C18_map_sequences : forall (K V : Type) (cmp : K -> K -> Z), cmp_order cmp ->
+  forall (phys_eq : forall A : Type, A -> A -> bool), oracle_sound phys_eq ->
+  forall (ops : list (MapSeq.mop (K:=K) (V:=V))) (t : Map_t K V) (fuel : nat), avl t -> bst cmp t ->
+  2 * (height t + MapSeq.total_cost ops) + 11 <= Z.of_nat fuel ->
+  exists t', MapSeq.run cmp phys_eq fuel t ops = Ok t' /\ avl t' /\ bst cmp t'
+    /\ bindings t' = fold_left (MapSeq.spec_step cmp) ops (bindings t).
+Proof. exact (@MapSeq.run_ok). Qed.
+
 (* =====================================================================  Set<V>
    A set is a finite map to unit: sbindings t : list (K * unit), elements t = map fst (sbindings t);
    savl / sbst are the AVL and search-tree invariants. *)
@@ -402,6 +442,202 @@ Theorem C18_set_diff : forall (K : Type) (cmp : K -> K -> Z), cmp_order cmp ->
     /\ sheight t <= sheight t1 + sheight t2.
 Proof. exact (@sdiff_ok). Qed.
 
+Theorem C18_set_subset : forall (K : Type) (cmp : K -> K -> Z), cmp_order cmp ->
+  forall (phys_eq : forall A : Type, A -> A -> bool) (fuel : nat) (t1 t2 : Set_t K),
+  savl t1 -> sbst cmp t1 -> savl t2 -> sbst cmp t2 -> sheight t1 + sheight t2 + 4 <= Z.of_nat fuel ->
+  Set_subset phys_eq cmp fuel t1 t2 = Ok (forallb (memb cmp (sbindings t2)) (elements t1)).
+Proof. exact (@subset_ok). Qed.
+
+Theorem C18_set_tryJoin : forall (K : Type) (cmp : K -> K -> Z), cmp_order cmp ->
+  forall (phys_eq : forall A : Type, A -> A -> bool), oracle_sound phys_eq ->
+  forall (l : Set_t K) (v : K) (r : Set_t K) (fuel : nat), savl l -> sbst cmp l -> savl r -> sbst cmp r ->
+  2 * (sheight l + sheight r) + 14 <= Z.of_nat fuel ->
+  exists t, Set_tryJoin phys_eq cmp fuel l v r = Ok t /\ savl t /\ sbst cmp t
+    /\ (forall k, memb cmp (sbindings t) k = memb cmp (sbindings l) k || (cmp k v =? 0) || memb cmp (sbindings r) k)
+    /\ sheight t <= sheight l + sheight r + 1.
+Proof. exact (@tryJoin_ok). Qed.
+
+(* map(f): exactly the images of the elements (fuel in terms of the size of the set) *)
+Theorem C18_set_map : forall (K : Type) (cmp : K -> K -> Z), cmp_order cmp ->
+  forall (phys_eq : forall A : Type, A -> A -> bool), oracle_sound phys_eq ->
+  forall (f : K -> res K) (g : K -> K), (forall x, f x = Ok (g x)) ->
+  forall (t : Set_t K) (fuel : nat), savl t -> sbst cmp t -> 4 * Z.of_nat (length (sbindings t)) + 16 <= Z.of_nat fuel ->
+  exists t', Set_map phys_eq cmp fuel t f = Ok t' /\ savl t' /\ sbst cmp t'
+    /\ (forall k, memb cmp (sbindings t') k = hits cmp g (elements t) k)
+    /\ (length (sbindings t') <= length (sbindings t))%nat.
+Proof. exact (@smap_ok). Qed.
+
+(* any sequence of insert / remove / filter / union / intersection / difference on sets *)
+Theorem C18_set_sequences : forall (K : Type) (cmp : K -> K -> Z), cmp_order cmp ->
+  forall (phys_eq : forall A : Type, A -> A -> bool), oracle_sound phys_eq ->
+  forall (ops : list (SetSeq.sop (K:=K))) (t : Set_t K) (fuel : nat), savl t -> sbst cmp t ->
+  2 * (sheight t + SetSeq.stotal_cost ops) + 11 <= Z.of_nat fuel ->
+  exists t', SetSeq.srun cmp phys_eq fuel t ops = Ok t' /\ savl t' /\ sbst cmp t'
+    /\ sbindings t' = fold_left (SetSeq.spec_sstep cmp) ops (sbindings t).
+Proof. exact (@SetSeq.srun_ok). Qed.
+
+Theorem C18_set_compare : forall (K : Type) (cmp : K -> K -> Z) (phys_eq : forall A : Type, A -> A -> bool)
+  (f : K -> K -> res Z) (g : K -> K -> Z), (forall a b, f a b = Ok (g a b)) ->
+  forall (t1 t2 : Set_t K) (fuel : nat), savl t1 -> savl t2 ->
+  Z.of_nat (length (elements t1)) + Z.max (sheight t1) (sheight t2) + 4 <= Z.of_nat fuel ->
+  Set_compare phys_eq cmp fuel t1 t2 f = Ok (slex cmp g (elements t1) (elements t2)).
+Proof. exact (@scompare_ok). Qed.
+
+Theorem C18_set_equal : forall (K : Type) (cmp : K -> K -> Z) (phys_eq : forall A : Type, A -> A -> bool)
+  (f : K -> K -> res bool) (g : K -> K -> bool), (forall a b, f a b = Ok (g a b)) ->
+  forall (t1 t2 : Set_t K) (fuel : nat), savl t1 -> savl t2 ->
+  Z.of_nat (length (elements t1)) + Z.max (sheight t1) (sheight t2) + 4 <= Z.of_nat fuel ->
+  Set_equal phys_eq cmp fuel t1 t2 f = Ok (seqb cmp g (elements t1) (elements t2)).
+Proof. exact (@sequal_ok). Qed.
+
+(* =====================================================================  List<T>  against Coq.Lists.List;
+   `of_list l` is the std List holding the sequence l; fuel: one step per element *)
+Theorem C18_list_basic : forall (phys_eq : forall A : Type, A -> A -> bool) (T : Type) (fuel : nat) (l : list T) (x : T),
+  (1 <= fuel)%nat ->
+  List_nil phys_eq fuel = Ok (@of_list T []) /\ List_of phys_eq fuel x = Ok (of_list [x])
+  /\ List_cons phys_eq fuel (of_list l) x = Ok (of_list (x :: l))
+  /\ List_isEmpty phys_eq fuel (of_list l) = Ok (match l with [] => true | _ => false end)
+  /\ List_first phys_eq fuel (of_list l) = Ok (of_option (hd_error l))
+  /\ List_rest phys_eq fuel (of_list l) = Ok (match l with [] => Option_None | _ :: r => Option_Some (of_list r) end).
+Proof.
+  exact (fun phys_eq T fuel l x H => conj (nil_ok phys_eq fuel H) (conj (of_ok phys_eq fuel x H) (conj (cons_ok phys_eq fuel l x H)
+    (conj (lisEmpty_ok phys_eq fuel l H) (conj (first_ok phys_eq fuel l H) (rest_ok phys_eq fuel l H)))))).
+Qed.
+
+Theorem C18_list_fold : forall (phys_eq : forall A : Type, A -> A -> bool) (T A : Type)
+  (f : A -> T -> res A) (g : A -> T -> A), (forall a x, f a x = Ok (g a x)) ->
+  forall (l : list T) (acc : A) (fuel : nat), (length l + 1 <= fuel)%nat ->
+  List_fold phys_eq fuel (of_list l) f acc = Ok (fold_left g l acc).
+Proof. exact (@lfold_ok). Qed.
+
+Theorem C18_list_foldRight : forall (phys_eq : forall A : Type, A -> A -> bool) (T A : Type)
+  (f : T -> A -> res A) (g : T -> A -> A), (forall x a, f x a = Ok (g x a)) ->
+  forall (l : list T) (init : A) (fuel : nat), (length l + 1 <= fuel)%nat ->
+  List_foldRight phys_eq fuel (of_list l) f init = Ok (fold_right g init l).
+Proof. exact (@lfoldRight_ok). Qed.
+
+Theorem C18_list_length : forall (phys_eq : forall A : Type, A -> A -> bool) (T : Type) (l : list T) (fuel : nat),
+  (length l + 2 <= fuel)%nat -> List_length phys_eq fuel (of_list l) = Ok (Z.of_nat (length l)).
+Proof. exact (@length_ok). Qed.
+
+Theorem C18_list_filter : forall (phys_eq : forall A : Type, A -> A -> bool) (T : Type)
+  (f : T -> res bool) (g : T -> bool), (forall x, f x = Ok (g x)) ->
+  forall (l : list T) (fuel : nat), (length l + 1 <= fuel)%nat ->
+  List_filter phys_eq fuel (of_list l) f = Ok (of_list (filter g l)).
+Proof. exact (@lfilter_ok). Qed.
+
+Theorem C18_list_map : forall (phys_eq : forall A : Type, A -> A -> bool) (T R : Type)
+  (f : T -> res R) (g : T -> R), (forall x, f x = Ok (g x)) ->
+  forall (l : list T) (fuel : nat), (length l + 1 <= fuel)%nat ->
+  List_map phys_eq fuel (of_list l) f = Ok (of_list (map g l)).
+Proof. exact (@lmap_ok). Qed.
+
+Theorem C18_list_filterMap : forall (phys_eq : forall A : Type, A -> A -> bool) (T R : Type)
+  (f : T -> res (Option_t R)) (g : T -> option R), (forall x, f x = Ok (of_option (g x))) ->
+  forall (l : list T) (fuel : nat), (length l + 1 <= fuel)%nat ->
+  List_filterMap phys_eq fuel (of_list l) f = Ok (of_list (fmap g l)).
+Proof. exact (@lfilterMap_ok). Qed.
+
+Theorem C18_list_iter : forall (phys_eq : forall A : Type, A -> A -> bool) (T : Type)
+  (f : T -> res unit), (forall x, f x = Ok tt) ->
+  forall (l : list T) (fuel : nat), (length l + 1 <= fuel)%nat -> List_iter phys_eq fuel (of_list l) f = Ok tt.
+Proof. exact (@literate_ok). Qed.
+
+Theorem C18_list_contains : forall (phys_eq : forall A : Type, A -> A -> bool) (T : Type)
+  (eq : T -> T -> res bool) (eqb : T -> T -> bool), (forall a b, eq a b = Ok (eqb a b)) ->
+  forall (l : list T) (x : T) (fuel : nat), (length l + 1 <= fuel)%nat ->
+  List_contains phys_eq fuel (of_list l) x eq = Ok (existsb (eqb x) l).
+Proof. exact (@lcontains_ok). Qed.
+
+Theorem C18_list_forAll : forall (phys_eq : forall A : Type, A -> A -> bool) (T : Type)
+  (f : T -> res bool) (g : T -> bool), (forall x, f x = Ok (g x)) ->
+  forall (l : list T) (fuel : nat), (length l + 1 <= fuel)%nat ->
+  List_forAll phys_eq fuel (of_list l) f = Ok (forallb g l).
+Proof. exact (@lforAll_ok). Qed.
+
+Theorem C18_list_exists : forall (phys_eq : forall A : Type, A -> A -> bool) (T : Type)
+  (f : T -> res bool) (g : T -> bool), (forall x, f x = Ok (g x)) ->
+  forall (l : list T) (fuel : nat), (length l + 1 <= fuel)%nat ->
+  List_exists phys_eq fuel (of_list l) f = Ok (existsb g l).
+Proof. exact (@lexists_ok). Qed.
+
+Theorem C18_list_find : forall (phys_eq : forall A : Type, A -> A -> bool) (T : Type)
+  (f : T -> res bool) (g : T -> bool), (forall x, f x = Ok (g x)) ->
+  forall (l : list T) (fuel : nat), (length l + 1 <= fuel)%nat ->
+  List_find phys_eq fuel (of_list l) f = Ok (of_option (List.find g l)).
+Proof. exact (@lfind_ok). Qed.
+
+Theorem C18_list_findMap : forall (phys_eq : forall A : Type, A -> A -> bool) (T R : Type)
+  (f : T -> res (Option_t R)) (g : T -> option R), (forall x, f x = Ok (of_option (g x))) ->
+  forall (l : list T) (fuel : nat), (length l + 1 <= fuel)%nat ->
+  List_findMap phys_eq fuel (of_list l) f = Ok (of_option (find_map g l)).
+Proof. exact (@lfindMap_ok). Qed.
+
+Theorem C18_list_append : forall (phys_eq : forall A : Type, A -> A -> bool) (T : Type) (l1 l2 : list T) (fuel : nat),
+  (length l1 + 2 <= fuel)%nat -> List_append phys_eq fuel (of_list l1) (of_list l2) = Ok (of_list (l1 ++ l2)).
+Proof. exact (@append_ok). Qed.
+
+Theorem C18_list_reverseAndAppend : forall (phys_eq : forall A : Type, A -> A -> bool) (T : Type) (l1 l2 : list T) (fuel : nat),
+  (length l1 + 2 <= fuel)%nat -> List_reverseAndAppend phys_eq fuel (of_list l1) (of_list l2) = Ok (of_list (rev l1 ++ l2)).
+Proof. exact (@reverseAndAppend_ok). Qed.
+
+Theorem C18_list_reverse : forall (phys_eq : forall A : Type, A -> A -> bool) (T : Type) (l : list T) (fuel : nat),
+  (length l + 2 <= fuel)%nat -> List_reverse phys_eq fuel (of_list l) = Ok (of_list (rev l)).
+Proof. exact (@reverse_ok). Qed.
+
+Theorem C18_list_bind : forall (phys_eq : forall A : Type, A -> A -> bool) (T R : Type)
+  (f : T -> res (List_t R)) (g : T -> list R), (forall x, f x = Ok (of_list (g x))) ->
+  forall (l : list T) (fuel : nat), (length l + 2 <= fuel)%nat -> (forall x, In x l -> (length (g x) + 3 <= fuel)%nat) ->
+  List_bind phys_eq fuel (of_list l) f = Ok (of_list (flat_map g l)).
+Proof. exact (@bind_ok). Qed.
+
+Theorem C18_list_flatten : forall (phys_eq : forall A : Type, A -> A -> bool) (T : Type) (ll : list (list T)) (fuel : nat),
+  (length ll + 2 <= fuel)%nat -> (forall l, In l ll -> (length l + 3 <= fuel)%nat) ->
+  List_flatten phys_eq fuel (of_list (map of_list ll)) = Ok (of_list (concat ll)).
+Proof. exact (fun phys_eq T => @flatten_ok phys_eq T). Qed.
+
+(* =====================================================================  Option<T> (used by the collections) *)
+Theorem C18_option_unwrap : forall (phys_eq : forall A : Type, A -> A -> bool) (T : Type) (fuel : nat) (o : option T),
+  (2 <= fuel)%nat ->
+  Option_unwrap phys_eq fuel (of_option o) = match o with Some x => Ok x | None => Panic end /\
+  Option_expect phys_eq fuel (of_option o) Str_lit = match o with Some x => Ok x | None => Panic end.
+Proof. exact (@ounwrap_ok). Qed.
+
+Theorem C18_option_map : forall (phys_eq : forall A : Type, A -> A -> bool) (T R : Type) (fuel : nat) (o : option T)
+  (f : T -> res R) (g : T -> R), (forall x, f x = Ok (g x)) -> (1 <= fuel)%nat ->
+  Option_map phys_eq fuel (of_option o) f = Ok (of_option (option_map g o)).
+Proof. exact (@omap_ok). Qed.
+
+Theorem C18_option_bind : forall (phys_eq : forall A : Type, A -> A -> bool) (T R : Type) (fuel : nat) (o : option T)
+  (f : T -> res (Option_t R)) (g : T -> option R), (forall x, f x = Ok (of_option (g x))) -> (1 <= fuel)%nat ->
+  Option_bind phys_eq fuel (of_option o) f = Ok (of_option (match o with Some x => g x | None => None end)).
+Proof. exact (@obind_ok). Qed.
+
+Theorem C18_option_filter : forall (phys_eq : forall A : Type, A -> A -> bool) (T : Type) (fuel : nat) (o : option T)
+  (f : T -> res bool) (g : T -> bool), (forall x, f x = Ok (g x)) -> (1 <= fuel)%nat ->
+  Option_filter phys_eq fuel (of_option o) f =
+    Ok (of_option (match o with Some x => if g x then Some x else None | None => None end)).
+Proof. exact (fun phys_eq T => @ofilter_ok phys_eq T). Qed.
+
+(* =====================================================================  the key type of the quantifier:
+   boxed Int, compare a b = a - b computed in 32 bits, on any window of keys of width 2^31 *)
+Theorem C18_int_compare_model : forall (phys_eq : forall A : Type, A -> A -> bool) (fuel : nat) (a b : Int_t),
+  (1 <= fuel)%nat -> Int_compare phys_eq fuel a b = Ok (Int_value a - Int_value b).
+Proof. exact Int_compare_ok. Qed.
+
+Theorem C18_int_compare_no_overflow : forall (lo : Z) (a b : IntW lo),
+  int_cmp lo a b = Int_value (proj1_sig a) - Int_value (proj1_sig b).
+Proof. exact int_cmp_exact. Qed.
+
+Theorem C18_int_compare_is_order : forall lo : Z, cmp_order (int_cmp lo).
+Proof. exact int_cmp_order. Qed.
+
+(* the range restriction of the quantifier is necessary: on all of int32 the computed comparison is not transitive *)
+Theorem C18_int_compare_overflow_not_transitive :
+  exists a b c, int32 a /\ int32 b /\ int32 c /\
+    wrap32 (a - b) < 0 /\ wrap32 (b - c) < 0 /\ ~ wrap32 (a - c) < 0.
+Proof. exact wrap32_compare_not_transitive. Qed.
+
 (* the specification side: `put` on a sorted association list is finite-map update *)
 Theorem C18_spec_put_sorted : forall (K : Type) (cmp : K -> K -> Z), cmp_order cmp ->
   forall (V : Type) (k : K) (v : V) (l : list (K * V)), sorted cmp l -> sorted cmp (put cmp k v l).
@@ -515,3 +751,39 @@ Print Assumptions C18_spec_find_del.
 Print Assumptions C18_spec_upd_sorted.
 Print Assumptions C18_spec_filter_sorted.
 Print Assumptions C18_spec_find_ext.
+Print Assumptions C18_map_merge.
+Print Assumptions C18_map_compare.
+Print Assumptions C18_map_equal.
+Print Assumptions C18_set_compare.
+Print Assumptions C18_set_equal.
+Print Assumptions C18_list_basic.
+Print Assumptions C18_list_fold.
+Print Assumptions C18_list_foldRight.
+Print Assumptions C18_list_length.
+Print Assumptions C18_list_filter.
+Print Assumptions C18_list_map.
+Print Assumptions C18_list_filterMap.
+Print Assumptions C18_list_iter.
+Print Assumptions C18_list_contains.
+Print Assumptions C18_list_forAll.
+Print Assumptions C18_list_exists.
+Print Assumptions C18_list_find.
+Print Assumptions C18_list_findMap.
+Print Assumptions C18_list_append.
+Print Assumptions C18_list_reverseAndAppend.
+Print Assumptions C18_list_reverse.
+Print Assumptions C18_list_bind.
+Print Assumptions C18_list_flatten.
+Print Assumptions C18_int_compare_model.
+Print Assumptions C18_int_compare_no_overflow.
+Print Assumptions C18_int_compare_is_order.
+Print Assumptions C18_int_compare_overflow_not_transitive.
+Print Assumptions C18_map_sequences.
+Print Assumptions C18_set_sequences.
+Print Assumptions C18_set_subset.
+Print Assumptions C18_set_tryJoin.
+Print Assumptions C18_set_map.
+Print Assumptions C18_option_unwrap.
+Print Assumptions C18_option_map.
+Print Assumptions C18_option_bind.
+Print Assumptions C18_option_filter.
